@@ -76,19 +76,145 @@ Qed.
 
 Lemma shlex_noquote w : no_quote w = true -> shlex_word None w = Some w.
 Proof.
-  unfold no_quote. induction w as [|c w IH]; cbn [has_char shlex_word]; [reflexivity|].
-  intros H. apply andb_true_iff in H as [H1 H2]. apply negb_true_iff in H1, H2.
-  apply orb_false_iff in H1 as [H1a H1b], H2 as [H2a H2b].
-  rewrite H1a, H2a. cbn [orb]. rewrite IH; [reflexivity|]. rewrite H1b, H2b. reflexivity.
+  unfold no_quote. intros H. apply shlex_word_noq. unfold has_q.
+  apply andb_true_iff in H as [H1 H2]. apply negb_true_iff in H1, H2. rewrite H1, H2. reflexivity.
 Qed.
 Lemma pip_word_noquote w : no_quote w = true -> pip_word w = w.
 Proof. intros H. unfold pip_word. rewrite shlex_noquote by exact H. reflexivity. Qed.
+
+(* ------------------------------------------------------------------ option lines: pip's grammar *)
+Lemma word_ok_parts w : word_ok w = true ->
+  w <> "" /\ tok_ok w /\ startswith w "#" = false /\ shword_ok w.
+Proof.
+  intros H. destruct (word_good _ H) as [(_ & _ & _ & Hh) Ht]. destruct Ht as [Hne Hns].
+  repeat split; try assumption.
+  unfold word_ok in H. apply andb_true_iff in H as [H _]. apply andb_true_iff in H as [_ H]. exact H.
+Qed.
+
+Lemma gw_ok_sh_inv x : gw_ok_sh x = true ->
+  gap_ws (fst x) <> "" /\ sh_ws_chars (gap_ws (fst x)) /\ word_ok (snd x) = true /\ quotes_closed (snd x) = true /\ gw_ok x = true.
+Proof.
+  destruct x as [g w]. unfold gw_ok_sh, gw_ok, gap_ok_sh, gap_ok, nonempty, ws_ok, sh_ws_ok. cbn [fst snd]. intros H.
+  apply andb_true_iff in H as [H Hq]. apply andb_true_iff in H as [Hg Hw]. destruct g as [ws|ws ind]; cbn [gap_ws].
+  - apply andb_true_iff in Hg as [H1 H2]. repeat split; try assumption.
+    + intros ->; discriminate.
+    + rewrite H1, Hw, (sh_ws_space _ H2). reflexivity.
+  - apply andb_true_iff in Hg as [Hg H3]. apply andb_true_iff in Hg as [H1 H2]. repeat split; try assumption.
+    + intros ->; discriminate.
+    + rewrite H1, Hw, H3, (sh_ws_space _ H2). reflexivity.
+Qed.
+Lemma gw_sh_all rest : forallb gw_ok_sh rest = true -> forallb gw_ok rest = true.
+Proof.
+  induction rest as [|x rest IH]; cbn [forallb]; [reflexivity|]. intros H. apply andb_true_iff in H as [H1 H2].
+  destruct (gw_ok_sh_inv _ H1) as (_ & _ & _ & _ & ->). apply IH; exact H2.
+Qed.
+
+Lemma quotes_closed_word w : quotes_closed w = true -> shlex_word None w = Some (pip_word w).
+Proof. unfold quotes_closed, pip_word. destruct (shlex_word None w); [reflexivity|discriminate]. Qed.
+
+Lemma drop_flat : forall rest w0 pend a tl,
+  word_ok w0 = true -> forallb gw_ok rest = true -> tail_ok true tl = true ->
+  drop_comment_go (flat w0 rest ++ tailT tl) pend a = rev_str pend ++ flat w0 rest.
+Proof.
+  induction rest as [|[g w] rest IH]; intros w0 pend a tl Hw0 Hr Ht;
+    destruct (word_ok_parts _ Hw0) as (_ & Htok & Hh & _).
+  - cbn [flat]. rewrite dc_word by assumption. f_equal. rewrite <- (sapp_nil_r w0) at 2. f_equal.
+    destruct (tail_ok_inv _ _ Ht) as (_ & [E | (ws & text & E & _ & Hne & Hws & _)]); unfold tailT; rewrite E.
+    + reflexivity.
+    + rewrite dc_ws by assumption. apply dc_comment. rewrite sapp_nil_r. intros E2. apply rev_eq_nil in E2. contradiction.
+  - cbn [forallb] in Hr. apply andb_true_iff in Hr as [Hgw Hr].
+    destruct (gw_ok_inv _ Hgw) as (G1 & G2 & G3 & _). cbn [fst snd] in *.
+    rewrite flat_cons, !sapp_assoc. rewrite dc_word by assumption. rewrite dc_ws by assumption.
+    rewrite IH by assumption. rewrite sapp_nil_r, rev_invol. reflexivity.
+Qed.
+
+Lemma shlex_flat : forall rest w0,
+  word_ok w0 = true -> quotes_closed w0 = true -> forallb gw_ok_sh rest = true ->
+  shlex_go (flat w0 rest) SW "" false = Some (map pip_word (w0 :: map snd rest)).
+Proof.
+  induction rest as [|[g w] rest IH]; intros w0 Hw0 Hq0 Hr;
+    destruct (word_ok_parts _ Hw0) as (Hne & _ & _ & Hsh).
+  - cbn [flat map]. apply sh_word_end; [assumption|assumption|apply quotes_closed_word; exact Hq0].
+  - cbn [forallb] in Hr. apply andb_true_iff in Hr as [Hgw Hr].
+    destruct (gw_ok_sh_inv _ Hgw) as (G1 & G2 & G3 & G4 & _). cbn [fst snd] in *.
+    rewrite flat_cons. rewrite (sh_word_then_ws w0 (pip_word w0)); try assumption; [|apply quotes_closed_word; exact Hq0].
+    rewrite IH by assumption. reflexivity.
+Qed.
+
+(* the tokens pip's grammar gives for a rendered option / include line *)
+Lemma option_tokens rest w0 tl :
+  word_ok w0 = true -> quotes_closed w0 = true -> forallb gw_ok_sh rest = true -> tail_ok true tl = true ->
+  shlex_split (drop_comment (flat w0 rest ++ tailT tl)) = Some (map pip_word (w0 :: map snd rest)).
+Proof.
+  intros H1 H2 H3 H4. unfold drop_comment. rewrite drop_flat by (try assumption; apply gw_sh_all; exact H3).
+  cbn [rev_str rev_str_acc append]. apply shlex_flat; assumption.
+Qed.
 
 Lemma map_pip_noquote l : (forall w, In w l -> no_quote w = true) -> map pip_word l = l.
 Proof.
   induction l as [|w l IH]; intros H; cbn [map]; [reflexivity|].
   rewrite pip_word_noquote by (apply H; left; reflexivity). f_equal. apply IH. intros x Hx; apply H; right; exact Hx.
 Qed.
+
+Lemma word_ok_app a b : word_ok a = true -> word_ok b = true -> word_ok (a ++ b) = true.
+Proof.
+  unfold word_ok, nonempty. intros Ha Hb.
+  apply andb_true_iff in Ha as [Ha Ha3]. apply andb_true_iff in Ha as [Ha1 Ha2].
+  apply andb_true_iff in Hb as [Hb _]. apply andb_true_iff in Hb as [_ Hb2].
+  destruct a as [|c a]; [discriminate|]. cbn [append].
+  apply andb_true_iff; split; [apply andb_true_iff; split; [reflexivity|]|].
+  - change (String c (a ++ b)) with (String c a ++ b). rewrite all_app, Ha2, Hb2. reflexivity.
+  - exact Ha3.
+Qed.
+Lemma no_quote_app a b : no_quote a = true -> no_quote b = true -> no_quote (a ++ b) = true.
+Proof.
+  unfold no_quote. intros Ha Hb. apply andb_true_iff in Ha as [A1 A2], Hb as [B1 B2].
+  apply negb_true_iff in A1, A2, B1, B2. rewrite !has_app, A1, A2, B1, B2. reflexivity.
+Qed.
+Lemma no_quote_closed w : no_quote w = true -> quotes_closed w = true.
+Proof. intros H. unfold quotes_closed. rewrite shlex_noquote by exact H. reflexivity. Qed.
+
+Lemma pip_word_dash w : startswith w "-" = true -> quotes_closed w = true -> startswith (pip_word w) "-" = true.
+Proof.
+  intros Hd Hq. pose proof (quotes_closed_word _ Hq) as E. destruct w as [|c w]; [discriminate|].
+  unfold startswith in Hd. cbn [prefixb] in Hd. rewrite andb_true_r in Hd. apply Ascii.eqb_eq in Hd. subst c.
+  cbn [shlex_word] in E. cbn [Ascii.eqb Bool.eqb orb andb] in E.
+  destruct (shlex_word None w) as [u|]; [|discriminate]. cbn [option_map] in E. injection E as E. rewrite <- E. reflexivity.
+Qed.
+
+Lemma include_eq_id q0 tl : is_include_form q0 = false -> include_eq (q0 :: tl) = q0 :: tl.
+Proof.
+  unfold is_include_form, include_eq. intros H. apply orb_false_iff in H as [_ H].
+  destruct (partition_char "="%char q0) as [[flag found] value]. destruct found; [|reflexivity].
+  cbn [andb] in H. destruct gen_ok as (_ & _ & -> & _). cbn [existsb]. unfold is_include_flag in H.
+  rewrite orb_false_r. rewrite H. reflexivity.
+Qed.
+
+Lemma partition_acc_first c a b acc : has_char c a = false ->
+  partition_char_acc c (a ++ String c b) acc = (rev_str acc ++ a, true, b).
+Proof.
+  revert acc; induction a as [|d a IH]; intros acc H; cbn [append partition_char_acc].
+  - rewrite Ascii.eqb_refl, sapp_nil_r. reflexivity.
+  - cbn [has_char] in H. apply orb_false_iff in H as [H1 H2]. rewrite H1.
+    rewrite IH by exact H2. rewrite rev_cons, sapp_assoc. reflexivity.
+Qed.
+Lemma partition_first c a b : has_char c a = false -> partition_char c (a ++ String c b) = (a, true, b).
+Proof. intros H. unfold partition_char. rewrite partition_acc_first by exact H. reflexivity. Qed.
+Lemma partition_acc_none c s acc : has_char c s = false ->
+  partition_char_acc c s acc = (rev_str acc ++ s, false, "").
+Proof.
+  revert acc; induction s as [|d s IH]; intros acc H; cbn [partition_char_acc].
+  - rewrite sapp_nil_r. reflexivity.
+  - cbn [has_char] in H. apply orb_false_iff in H as [H1 H2]. rewrite H1.
+    rewrite IH by exact H2. rewrite rev_cons, sapp_assoc. reflexivity.
+Qed.
+Lemma partition_none c s : has_char c s = false -> partition_char c s = (s, false, "").
+Proof. intros H. unfold partition_char. rewrite partition_acc_none by exact H. reflexivity. Qed.
+Definition eq_ch : ascii := "="%char.
+Lemma partition_none_eq s : has_char "="%char s = false -> partition_char "="%char s = (s, false, "").
+Proof. apply partition_none. Qed.
+Lemma partition_first_eq a b : has_char "="%char a = false -> partition_char "="%char (a ++ String "="%char b) = (a, true, b).
+Proof. apply partition_first. Qed.
 
 (* ------------------------------------------------------------------ one item *)
 Section Items.
@@ -142,8 +268,8 @@ Section Items.
     exists (req_text fl ((first :: map snd toks) ++ map snd opts ++ ctoks tl)%list). split; [exact Hm|].
     intros more acc. cbn [render_item]. rewrite run_logical with (ac := true); try assumption; [|apply appending_clean].
     cbn [full clean append]. fold fl. unfold classify_line. rewrite Hsplit. cbn [app].
-    rewrite not_dash_not_flag by exact Hdash.
     destruct gen_ok as (_ & _ & _ & _ & _ & Eo & _). rewrite Eo, Hdash.
+    unfold classify_parts. rewrite not_dash_not_flag by exact Hdash. rewrite Eo, Hdash.
     cbn [app] in Hm. rewrite (Hvalid _ Hm). reflexivity.
   Qed.
 
@@ -154,22 +280,20 @@ Section Items.
   Proof.
     cbn [conv_item]. intros Hc.
     repeat (apply andb_true_iff in Hc as [Hc ?]).
-    rename H into Htl, H0 into Hq2, H1 into Hq1, H2 into Hrest, H3 into Hnf, H4 into Hdash, H5 into Hw.
+    rename H into Htl, H0 into Hrest, H1 into Hnf, H2 into Hq, H3 into Hdash, H4 into Hw.
     apply negb_true_iff in Hnf.
     destruct (word_good _ Hw) as [Hb Ht].
-    assert (Hct : ctoks tl = [] /\ tailT tl = "").
-    { destruct (tail_ok_inv _ _ Htl) as (_ & [E | (ws & text & E & Hf & _)]); [|discriminate].
-      unfold ctoks, tailT. rewrite E. split; reflexivity. }
-    destruct Hct as [Hct HtT].
-    cbn [render_item]. rewrite run_logical with (ac := false); try assumption; [|apply appending_clean].
+    pose proof (gw_sh_all _ Hrest) as Hrest'.
+    cbn [render_item]. rewrite run_logical with (ac := true); try assumption; [|apply appending_clean].
     cbn [full clean append]. unfold classify_line.
-    rewrite split_logical with (ac := false) by assumption. rewrite Hct, app_nil_r.
-    unfold is_include_flag in Hnf. apply orb_false_iff in Hnf as [Hn1 Hn2].
-    destruct gen_ok as (_ & _ & Ei & _ & _ & Eo & _). rewrite Ei, Eo. cbn [existsb]. rewrite Hn1, Hn2. cbn [orb].
-    rewrite Hdash. cbn [item_opts].
-    rewrite map_pip_noquote; [reflexivity|].
-    intros w [<- | Hin]; [exact Hq1|]. apply in_map_iff in Hin as (x & <- & Hx).
-    rewrite forallb_forall in Hq2. apply Hq2, Hx.
+    rewrite split_logical with (ac := true) by assumption. cbn [app].
+    destruct gen_ok as (_ & _ & Ei & _ & _ & Eo & _). rewrite Eo, Hdash.
+    unfold option_parts. rewrite option_tokens by assumption. cbn [option_map map].
+    rewrite include_eq_id by exact Hnf.
+    unfold classify_parts. rewrite Ei, Eo.
+    unfold is_include_form in Hnf. apply orb_false_iff in Hnf as [Hnf _]. unfold is_include_flag in Hnf.
+    cbn [existsb]. rewrite orb_false_r, Hnf.
+    rewrite (pip_word_dash _ Hdash Hq). reflexivity.
   Qed.
 
   Lemma flag_good flag : is_include_flag flag = true -> good_body flag /\ tok_ok flag /\
@@ -186,24 +310,72 @@ Section Items.
     apply strip_sandwich; try reflexivity; assumption.
   Qed.
 
+  Lemma flag_facts flag : is_include_flag flag = true ->
+    word_ok flag = true /\ no_quote flag = true /\ startswith flag "-" = true /\ has_char "="%char flag = false.
+  Proof.
+    unfold is_include_flag. intros H. apply orb_true_iff in H as [H|H]; apply String.eqb_eq in H; subst flag; repeat split.
+  Qed.
+
+  Lemma classify_include k flag path tl' acc : is_include_flag flag = true -> word_ok path = true ->
+    classify_parts valid rec_file dir k "" [] acc = classify_parts valid rec_file dir k "" [] acc ->
+    forall fl, classify_parts valid rec_file dir k fl (flag :: path :: tl') acc =
+    match rec_file (path_join (if String.eqb dir "" then "." else dir) path) acc with
+    | Ok acc' => k acc'
+    | Err e o => Err e o
+    end.
+  Proof.
+    intros Hflag Hp _ fl. destruct (flag_good _ Hflag) as (_ & _ & Hfe). destruct (word_good _ Hp) as [Hpb _].
+    unfold classify_parts. rewrite Hfe. destruct gen_ok as (_ & _ & _ & -> & Ed & _). cbn [nth_error].
+    rewrite strip_word by exact Hpb. unfold dir_or_default. rewrite Ed. reflexivity.
+  Qed.
+
   Lemma item_include ind flag g path tl sub more acc :
-    ws_ok ind = true -> is_include_flag flag = true -> gap_ok g = true -> word_ok path = true ->
-    tail_ok true tl = true ->
+    ws_ok ind = true -> is_include_flag flag = true -> (gap_ok_sh g || eq_gap flag g) = true ->
+    word_ok path = true -> no_quote path = true -> tail_ok true tl = true ->
     IL (render_item (IInclude ind flag g path tl sub) ++ more) clean acc =
     match rec_file (path_join (if String.eqb dir "" then "." else dir) path) acc with
     | Ok acc' => IL more clean acc'
     | Err e o => Err e o
     end.
   Proof.
-    intros Hind Hflag Hg Hp Htl.
-    destruct (flag_good _ Hflag) as (Hfb & Hft & Hfe).
-    destruct (word_good _ Hp) as [Hpb Hpt].
-    assert (Hgw : forallb gw_ok [(g, path)] = true) by (cbn; unfold gw_ok; cbn; rewrite Hg, Hp; reflexivity).
-    cbn [render_item]. rewrite run_logical with (ac := true); try assumption; [|apply appending_clean].
-    cbn [full clean append]. unfold classify_line.
-    rewrite split_logical with (ac := true) by assumption. cbn [map snd app].
-    rewrite Hfe. destruct gen_ok as (_ & _ & _ & -> & Ed & _). cbn [nth_error].
-    rewrite strip_word by exact Hpb. unfold dir_or_default. rewrite Ed. reflexivity.
+    intros Hind Hflag Hg Hp Hpq Htl.
+    destruct (flag_facts _ Hflag) as (Hfw & Hfq & Hfd & Hfe).
+    destruct (word_good _ Hfw) as [Hfb Hft].
+    destruct (gen_ok) as (_ & _ & Ei & _ & _ & Eo & _).
+    destruct (gap_ok_sh g) eqn:Egs.
+    - (* -r FILE / --requirement FILE *)
+      assert (Hgs : forallb gw_ok_sh [(g, path)] = true).
+      { cbn. unfold gw_ok_sh. cbn [fst snd]. rewrite Egs, Hp, (no_quote_closed _ Hpq). reflexivity. }
+      pose proof (gw_sh_all _ Hgs) as Hgw.
+      cbn [render_item]. rewrite run_logical with (ac := true); try assumption; [|apply appending_clean].
+      cbn [full clean append]. unfold classify_line.
+      rewrite split_logical with (ac := true) by assumption. cbn [map snd app].
+      rewrite Eo, Hfd. unfold option_parts.
+      rewrite option_tokens by (try assumption; apply no_quote_closed; exact Hfq). cbn [option_map map snd].
+      rewrite (pip_word_noquote _ Hfq), (pip_word_noquote _ Hpq).
+      unfold include_eq. rewrite partition_none_eq by exact Hfe.
+      apply classify_include; auto.
+    - (* --requirement=FILE *)
+      cbn [orb] in Hg. unfold eq_gap in Hg. apply andb_true_iff in Hg as [Hf Hgq]. apply String.eqb_eq in Hf. subst flag.
+      destruct g as [ws|ws ind2]; [|discriminate]. apply String.eqb_eq in Hgq. subst ws.
+      set (W := "--requirement=" ++ path).
+      assert (HW : word_ok W = true) by (apply word_ok_app; [reflexivity|exact Hp]).
+      assert (HWq : no_quote W = true) by (apply no_quote_app; [reflexivity|exact Hpq]).
+      destruct (word_good _ HW) as [HWb HWt].
+      assert (Er : render_item (IInclude ind "--requirement" (GSp "=") path tl sub) =
+                   render_rest (ind ++ W) [] (render_tail tl)).
+      { cbn [render_item render_rest]. unfold W. rewrite !sapp_assoc. reflexivity. }
+      rewrite Er. rewrite (run_logical valid rec_file dir [] ind W true tl more clean acc Hind HWb eq_refl Htl appending_clean).
+      cbn [full clean append flat]. unfold classify_line.
+      pose proof (split_logical [] W true tl HWt eq_refl Htl) as Hs. cbn [flat map app] in Hs. rewrite Hs.
+      rewrite Eo. replace (startswith W "-") with true by reflexivity.
+      unfold option_parts.
+      pose proof (option_tokens [] W tl HW (no_quote_closed _ HWq) eq_refl Htl) as Ho. cbn [flat map] in Ho. rewrite Ho.
+      cbn [option_map]. rewrite (pip_word_noquote _ HWq).
+      unfold include_eq, W.
+      change ("--requirement=" ++ path) with ("--requirement" ++ String "="%char path).
+      rewrite partition_first_eq by reflexivity. rewrite Ei. cbn [existsb String.eqb Ascii.eqb Bool.eqb andb orb].
+      apply classify_include; auto.
   Qed.
 End Items.
 
@@ -215,7 +387,7 @@ Proof. unfold opts_of. cbn [item_opts]. induction sub as [|x sub IH]; [reflexivi
 Lemma item_depth_include i f g p t sub : item_depth (IInclude i f g p t sub) = S (depth sub).
 Proof. unfold depth. cbn [item_depth]. reflexivity. Qed.
 Lemma conv_include i f g p t sub : conv_item (IInclude i f g p t sub) =
-  ws_ok i && is_include_flag f && gap_ok g && word_ok p && tail_ok true t && conventional sub.
+  ws_ok i && is_include_flag f && (gap_ok_sh g || eq_gap f g) && word_ok p && no_quote p && tail_ok true t && conventional sub.
 Proof. unfold conventional. cbn [conv_item]. reflexivity. Qed.
 Lemma holds_include fs dir i f g p t sub : item_holds fs dir (IInclude i f g p t sub) <->
   fs (path_join (if String.eqb dir "" then "." else dir) p) = Some (render sub) /\
@@ -280,7 +452,7 @@ Section Main.
         rewrite item_opt by exact Hci. cbn [fst snd]. rewrite app_nil_r. reflexivity.
       + rewrite conv_include in Hci.
         repeat (apply andb_true_iff in Hci as [Hci ?]).
-        rename H into Hsub, H0 into Htl, H1 into Hp, H2 into Hg, H3 into Hflag.
+        rename H into Hsub, H0 into Htl, H1 into Hpq, H2 into Hp, H3 into Hg, H4 into Hflag.
         apply holds_include in Hhi. destruct Hhi as [Hfs Hhsub].
         rewrite item_depth_include in Hd.
         destruct f as [|f']; [lia|].
